@@ -763,6 +763,13 @@ class S3StorageBackend(StorageBackend):
         from .s3_consistency import with_s3_retry
 
         s3_prefix = self._get_s3_key(prefix)
+        # `prefix` names a DIRECTORY of the table (as it does on the local
+        # backend), but S3 matches key prefixes as plain strings: listing
+        # 'metadata' also returned 'metadata.version-hint.text', and 'data'
+        # would return a sibling 'data2/...' or 'datafile'. Terminate the
+        # prefix so only keys inside the directory match.
+        if s3_prefix and not s3_prefix.endswith("/"):
+            s3_prefix += "/"
 
         def list_op() -> List[str]:
             result = []
